@@ -29,7 +29,8 @@ fuzz_target!(|data: &[u8]| {
         }
     }
     ops.push(SatOp::Solve(vec![]));
-    let case = SatCase { ops };
+    let stride = [1u8, 64, 65, 3][(data.len() % 4) as usize];
+    let case = SatCase { ops, stride };
     if let Err(f) = vharness::checks::satobj::run_embedded_only(&case) {
         vharness::fuzzsupport::report("C15", &f, serde_json::to_value(&case).unwrap());
     }
